@@ -33,7 +33,7 @@ def parseBool (s : String) : Option Bool := if s == "1" then some true else if s
 
 def parseCfg (s : String) : Cfg :=
   let fl := s.splitOn ","
-  { f3 := fl.contains "f3", f2 := fl.contains "f2", u2 := fl.contains "u2", o1 := fl.contains "o1", t1 := fl.contains "t1" }
+  { f3 := fl.contains "f3", f2 := fl.contains "f2", u2 := fl.contains "u2", o1 := fl.contains "o1", t1 := fl.contains "t1", l1 := fl.contains "l1" }
 
 /-- resolve an address reference against the model state (what the Go harness does with its derivation oracle) -/
 def resolveRef (s : State Key Key) (sc : Scope) (r : String) : Option (AddrId Key) :=
